@@ -262,6 +262,29 @@ pub fn constructs(thorough: bool) -> Vec<Construct> {
             }));
         }
     }
+    // `? T` over a source that holds members of many types, cells of union content among them,
+    // for element types T with structure (the filter tests run-time types against T, however it
+    // gets hold of T); the results are then used as what their static type says they are
+    const MIXED: &str = "1, 2.5, \"s\", mut 7, mut 7.5, mut int|float 1, mut int|float 2.5, [1], [2.5], [mut 1], (1, 2), (mut 1, 2), struct{ a := 1 }, struct{ a := mut 1 }";
+    for (tname, ttext, as_cell) in [
+        ("mut int", "mut int", true),
+        ("mut (int/float)", "mut (int|float)", true),
+        ("mut any", "mut any", true),
+        ("int/float", "int|float", false),
+        ("[mut int]", "[mut int]", false),
+        ("(mut int, int)", "(mut int, int)", false),
+        ("struct{a: mut int}", "struct{a: mut int}", false),
+        ("mut int/float", "mut int|float", false),
+        ("[int]/[float]", "[int]|[float]", false),
+        ("() -> int", "() -> int", false),
+    ] {
+        v.push(expr_c(&format!("typefilter-mixed:{tname}"), 1, move |o| format!("([{MIXED}, {}]~ ? {ttext} $])", o[0])));
+        if as_cell {
+            v.push(stmt_c(&format!("typefilter-mixed-cells-used:{tname}"), 1, move |o| {
+                format!("seen := mut [any] []; for x in [{MIXED}, {}]~ ? {ttext} {{ seen += [*x]; x = *x }}; return *seen;", o[0])
+            }));
+        }
+    }
     v
 }
 
